@@ -325,7 +325,7 @@ Lemma delete_spec b n :
             (bcur b))
      (firstn (Z.to_nat k) (skipn (Z.to_nat (bcur b)) (btext b))).
 Proof.
-  intros [H0 H1] Hn k. unfold delete.
+  intros [H0 H1] Hn k. unfold delete. replace (Z.max 0 n) with n by lia.
   destruct (bcur b <? len (btext b)) eqn:Ec.
   - unfold text_after_cursor, bdoc; cbn [dtext dcur].
     rewrite (slice_from_in_range (btext b) (bcur b)) by lia.
@@ -349,6 +349,28 @@ Proof.
     rewrite H2. rewrite Z.add_0_r. cbn [Z.to_nat firstn].
     rewrite H. unfold len. rewrite Nat2Z.id, skipn_all, firstn_all, app_nil_r.
     destruct b as [t c]; cbn in *. subst. reflexivity.
+Qed.
+
+(* A count below zero deletes nothing (delete b n = delete b (max 0 n)). *)
+Lemma delete_max b n : delete b n = delete b (Z.max 0 n).
+Proof. unfold delete. now rewrite Z.max_r with (n := 0) (m := Z.max 0 n) by lia. Qed.
+
+Lemma delete_negative b n : Inv b -> n <= 0 -> delete b n = Ok b [].
+Proof.
+  intros H Hn. rewrite delete_max. replace (Z.max 0 n) with 0 by lia.
+  pose proof (delete_spec b 0 H ltac:(lia)) as E. cbn zeta in E. rewrite E.
+  destruct H as [H0 H1]. replace (Z.min 0 (len (btext b) - bcur b)) with 0 by lia.
+  rewrite Z.add_0_r. cbn [Z.to_nat firstn]. rewrite firstn_skipn.
+  destruct b as [t c]; reflexivity.
+Qed.
+
+(* The delete of before the repair removed characters that are NOT next to
+   the cursor for a negative count: ('abcdef', 1).delete(-1) = 'bcde'. *)
+Lemma delete_pinned_refuted :
+  exists b n, Inv b /\ delete_pinned b n = Ok (mkbuf [97;102] 1) [98;99;100;101] /\ btext b = [97;98;99;100;101;102].
+Proof.
+  exists (mkbuf [97;98;99;100;101;102] 1), (-1).
+  split; [unfold Inv; cbn; lia|]. split; [vm_compute; reflexivity|reflexivity].
 Qed.
 
 (* ---------------------------------------------------------------------- *)
